@@ -57,13 +57,15 @@ type Script struct {
 }
 
 type Target struct {
-	ln   net.Listener
-	srv  *http.Server
-	mu   sync.Mutex
-	k    int
-	sc   Script
-	log  []Entry
-	last time.Time
+	conns map[net.Conn]struct{}
+	cmu   sync.Mutex
+	ln    net.Listener
+	srv   *http.Server
+	mu    sync.Mutex
+	k     int
+	sc    Script
+	log   []Entry
+	last  time.Time
 }
 
 func NewTarget() *Target {
@@ -71,8 +73,17 @@ func NewTarget() *Target {
 	if err != nil {
 		panic(err)
 	}
-	t := &Target{ln: ln}
-	t.srv = &http.Server{Handler: http.HandlerFunc(t.handle)}
+	t := &Target{ln: ln, conns: map[net.Conn]struct{}{}}
+	t.srv = &http.Server{Handler: http.HandlerFunc(t.handle), ConnState: func(c net.Conn, st http.ConnState) {
+		t.cmu.Lock()
+		defer t.cmu.Unlock()
+		switch st {
+		case http.StateNew:
+			t.conns[c] = struct{}{}
+		case http.StateClosed, http.StateHijacked:
+			delete(t.conns, c)
+		}
+	}}
 	go t.srv.Serve(ln)
 	return t
 }
@@ -80,8 +91,19 @@ func NewTarget() *Target {
 func (t *Target) Addr() string { return t.ln.Addr().String() }
 func (t *Target) Close()       { t.srv.Close() }
 
+// DropConns closes the connections of the finished case (the guns keep them alive; thousands of cases
+// would otherwise exhaust the descriptor table).
+func (t *Target) DropConns() {
+	t.cmu.Lock()
+	for c := range t.conns {
+		c.Close()
+	}
+	t.cmu.Unlock()
+}
+
 // Reset starts a new case.
 func (t *Target) Reset(sc Script) {
+	t.DropConns()
 	t.mu.Lock()
 	t.k, t.sc, t.log, t.last = 0, sc, nil, time.Time{}
 	t.mu.Unlock()
